@@ -1,0 +1,15 @@
+// SPDX-License-Identifier: Apache-2.0
+// Copyright Authors of Cilium
+
+//go:build verif
+
+package internal
+
+import "github.com/cilium/statedb/internal/simhook"
+
+// Unlock shadows the promoted sync.Mutex.Unlock in order to report the
+// release to the simulator.
+func (s *sortableMutex) Unlock() {
+	s.Mutex.Unlock()
+	simhook.Release(s, "table.unlock")
+}
